@@ -8,12 +8,12 @@ from symx.world import World, func_hash
 _WORLDS = {}
 
 
-def world(key, symbolic, modules, extra=None, extra_by_module=None, nodes=False, desugar=()):
+def world(key, symbolic, modules, extra=None, extra_by_module=None, nodes=False, desugar=(), clone_classes=()):
     """One World per (key, mode) per process.  Stubs that need per-path state should hold it in
     a mutable object created by the harness body."""
     k = (key, bool(symbolic))
     if k not in _WORLDS:
-        _WORLDS[k] = World(modules, symbolic=symbolic, extra=extra, extra_by_module=extra_by_module, nodes=nodes, desugar=desugar)
+        _WORLDS[k] = World(modules, symbolic=symbolic, extra=extra, extra_by_module=extra_by_module, nodes=nodes, desugar=desugar, clone_classes=clone_classes)
     return _WORLDS[k]
 
 
@@ -32,6 +32,32 @@ def _own_layer(node):
 
 
 def lower_tree(node, depth=0):
+    """Lowering of a tree of symbolic nodes: dask's own ``Expr.lower_completely`` driver (it only
+    compares names and rebuilds nodes with ``type(expr)(*operands)``, both of which symbolic nodes
+    support) calling the repository's ``_lower`` / ``lower_once`` methods."""
+    from dask._expr import Expr
+
+    out = Expr.lower_completely(node)
+    for n in _walk(out):
+        if not _own_layer(n):
+            raise NotImplementedError(f"{type(n).__name__} has no _layer after lowering")
+    return out
+
+
+def _walk(node, seen=None):
+    from dask._expr import Expr
+
+    seen = set() if seen is None else seen
+    if node._name in seen:
+        return
+    seen.add(node._name)
+    yield node
+    for op in node.operands:
+        if isinstance(op, Expr):
+            yield from _walk(op, seen)
+
+
+def lower_tree_manual(node, depth=0):
     """Minimal stand-in for Expr.lower_completely on symbolic nodes: apply the node's own
     ``_lower`` until it has a layer of its own, then lower its dependencies (in place)."""
     from dask._expr import Expr
